@@ -47,6 +47,22 @@ func scnCases(tier string, seed int64, forC09 bool) []runner.Case {
 			}
 		}
 	}
+	// the merge transaction stays empty because its only entry is a deletion marker past the sweeper's cutoff
+	for _, native := range []bool{true, false} {
+		for _, p := range []string{"load.before_txn", "load.after_txn", "load.done", "loop.before_info", "loop.after_info", "loop.end", "send.before_txn"} {
+			for _, k := range []string{"insert", "overwrite", "delete", "newdbi"} {
+				add("staletomb", Scn{Native: native, Point: p, Nth: 1, Kind: k, Remote: "staletomb", Sweeper: true, AfterLoad: p[:4] != "load"})
+			}
+		}
+	}
+	// the application deletes the last key of a DBI
+	for _, native := range []bool{true, false} {
+		for _, p := range Points {
+			for _, rem := range []string{"none", "nonews", "news"} {
+				add("emptydbi", Scn{Native: native, Point: p, Nth: 1, Kind: "empty-dbi", Remote: rem, Prewrite: rem == "none"})
+			}
+		}
+	}
 	// empty-value sub-family (insert/overwrite only)
 	for _, native := range []bool{true, false} {
 		for _, p := range []string{"loop.top", "load.after_txn", "send.after_txn", "loop.end"} {
